@@ -52,12 +52,14 @@ type c39sc struct {
 	listenErr   bool
 	fileErr     bool
 	boundDelta  int
+	hookPanicAt int  // OnChildSpawn's i-th call panics (-1: never)
+	reuseport   bool // no listener is bound by the master
 	exits       int // self exits the script produces (-1: unbounded)
 }
 
 // expectReturn: an injected fault ends the master whatever the children do.
 func (sc *c39sc) expectReturn() bool {
-	return sc.hookFailAt >= 0 || sc.readyFails || sc.prodFaultAt >= 0 || sc.listenErr || sc.fileErr || sc.startFails()
+	return sc.hookFailAt >= 0 || sc.hookPanicAt >= 0 || sc.readyFails || sc.prodFaultAt >= 0 || sc.listenErr || sc.fileErr || sc.startFails()
 }
 
 func (sc *c39sc) startFails() bool {
@@ -85,6 +87,7 @@ type c39obs struct {
 	recovers   [][2]int
 	logs       []string
 	fdLeft     int
+	panicked   any
 	lnClosed   int
 }
 
@@ -124,10 +127,16 @@ func c39body(sc *c39sc, sleeps int) func() {
 			RecoverThreshold:    sc.thr,
 			RecoverInterval:     sc.ri,
 			ShutdownGracePeriod: sc.grace,
+			Reuseport:           sc.reuseport,
 		}
 		p.OnChildSpawn = func(pid int) error {
 			i := len(o.spawnHook)
 			o.spawnHook = append(o.spawnHook, pid)
+			if i == sc.hookPanicAt {
+				o.fault, o.faultPhase = "hook-panic-spawn", phase()
+				mcrt.Covered("hook-panic")
+				panic(c39errHook)
+			}
 			if i == sc.hookFailAt {
 				o.fault, o.faultPhase = "hook-error-spawn", phase()
 				mcrt.Covered("hook-error")
@@ -180,8 +189,20 @@ func c39body(sc *c39sc, sleeps int) func() {
 			return ""
 		})
 		mcrt.GoNamed("master", func() {
-			err := p.ListenAndServe("127.0.0.1:0")
-			// no scheduling point between the return and this record
+			var err error
+			func() {
+				defer func() {
+					if e := recover(); e != nil {
+						if w := mcrt.W(); w == nil || w.Aborting() {
+							panic(e)
+						}
+						o.panicked = e
+						err, _ = e.(error)
+					}
+				}()
+				err = p.ListenAndServe("127.0.0.1:0")
+			}()
+			// no scheduling point between the return (or the panic leaving prefork) and this record
 			o.returned, o.err, o.returnedAt = true, err, c39now()
 			o.atReturn = tab.Snapshot()
 			if errors.Is(err, ErrOverRecovery) {
@@ -258,13 +279,21 @@ func c39selfExits(ps []seam.Proc) int {
 func c39check(sc *c39sc) func(x *mcrt.Exec) (string, string, string) {
 	return func(x *mcrt.Exec) (string, string, string) {
 		o, _ := x.UserData.(*c39obs)
-		if o == nil || x.Out.Panic != "" || x.Out.Horizon || x.Out.Fatal != "" || x.Out.Invariant != "" || x.Out.Deadlock {
+		if o == nil || x.Out.Panic != "" || x.Out.Horizon || x.Out.Fatal != "" || x.Out.Invariant != "" {
 			if o != nil && x.Out.Invariant != "" {
 				return "", "prefork-live-children-above-target", x.Out.Invariant
 			}
 			return "", "", ""
 		}
-		if !o.settled {
+		// A deadlock is quiescence reached while the main thread still waits for prefork to return (or to settle): the
+		// table is final (the fake OS ignores the unwinding), classify it below; anything unexplained is left to the
+		// generic deadlock verdict.
+		if x.Out.Deadlock {
+			if o.returned {
+				return "", "", ""
+			}
+			o.final = o.tab.Snapshot()
+		} else if !o.settled {
 			return "", "", ""
 		}
 		grace := c39grace(sc)
@@ -375,6 +404,9 @@ func c39check(sc *c39sc) func(x *mcrt.Exec) (string, string, string) {
 					return cls, "prefork-child-not-reaped[while-running]", fmt.Sprintf("child #%d pid %d exited at %v and is still a zombie at quiescence: %s", ps[i].Spawn, ps[i].Pid, ps[i].ExitedAt, evs())
 				}
 			}
+			if x.Out.Deadlock {
+				return cls, "", "" // the fleet is complete but the scripted course was not: generic deadlock verdict
+			}
 			return cls, "", ""
 		}
 
@@ -405,7 +437,7 @@ func c39check(sc *c39sc) func(x *mcrt.Exec) (string, string, string) {
 		// the answer
 		var want error
 		switch {
-		case strings.HasPrefix(path, "hook-error"):
+		case strings.HasPrefix(path, "hook-error"), strings.HasPrefix(path, "hook-panic"):
 			want = c39errHook
 		case strings.HasPrefix(path, "producer-error"):
 			want = c39errProducer
@@ -457,6 +489,11 @@ func c39term(mode string, i int) (seam.TermMode, time.Duration) {
 	case "mixed":
 		if i%2 == 0 {
 			return seam.TermIgnore, 0
+		}
+		return seam.TermExit, 0
+	case "slow-mixed":
+		if i%2 == 0 {
+			return seam.TermDelayed, 500 * time.Millisecond
 		}
 		return seam.TermExit, 0
 	}
@@ -514,7 +551,7 @@ func c39mk(kind string, procs, thr int, ri time.Duration, pattern, term string, 
 	if ri != 0 {
 		riName = "ri" + ri.String()
 	}
-	sc := &c39sc{procs: procs, thr: thr, ri: ri, grace: c39grace1s, children: ch, def: def, exits: exits, hookFailAt: -1, prodFaultAt: -1}
+	sc := &c39sc{procs: procs, thr: thr, ri: ri, grace: c39grace1s, children: ch, def: def, exits: exits, hookFailAt: -1, prodFaultAt: -1, hookPanicAt: -1}
 	sc.name = fmt.Sprintf("procs%d/thr%d/%s/%s/term-%s", procs, thr, riName, pattern, term)
 	if kind != "" {
 		sc.name += "/" + kind
@@ -530,14 +567,14 @@ func c39scenarios(r *vrt.R) []*c39sc {
 	add := func(sc *c39sc) { out = append(out, sc) }
 	ris := []time.Duration{0, time.Second}
 	procsList := []int{1, 2}
-	// A: exit patterns x thresholds x intervals x SIGTERM behaviours
+	// A: exit patterns x thresholds x intervals x SIGTERM behaviours. (With GOMAXPROCS<=2 at most one child is alive
+	// when ErrOverRecovery is decided, so mixed SIGTERM behaviours only matter on the fault paths below.)
 	for _, procs := range procsList {
 		patterns := []string{"crashloop", "first", "replacement"}
-		terms := []string{"exit", "ignore", "slow"}
 		if procs >= 2 {
 			patterns = []string{"crashloop", "first", "together", "stagger", "replacement", "three"}
-			terms = []string{"exit", "ignore", "slow", "mixed"}
 		}
+		terms := []string{"exit", "ignore", "slow"}
 		for _, thr := range []int{0, 1, 2} {
 			for _, ri := range ris {
 				for _, pat := range patterns {
@@ -549,8 +586,8 @@ func c39scenarios(r *vrt.R) []*c39sc {
 					if exits > thr+1 && pat != "together" && pat != "stagger" {
 						continue // the pattern's tail is never reached: same as a shorter pattern
 					}
-					if pat == "crashloop" && procs >= 2 && thr >= 1 && !r.Thorough() {
-						continue // covered by the finite patterns (together/stagger/replacement/three); the loop is thorough-only
+					if pat == "crashloop" && procs >= 2 && (thr == 0 || !r.Thorough()) {
+						continue // thr 0: identical to "together"; otherwise covered by the finite patterns, the loop is thorough-only
 					}
 					for _, term := range tt {
 						add(c39mk("", procs, thr, ri, pat, term, nil))
@@ -559,28 +596,33 @@ func c39scenarios(r *vrt.R) []*c39sc {
 			}
 		}
 	}
-	// B: spawn failure at the i-th Start (initial fleet and recoveries), built-in re-exec path
+	// B: spawn failure at the i-th Start (initial fleet, first and second recovery), built-in re-exec path
 	// C: OnChildSpawn fails at its i-th call
 	for _, procs := range procsList {
 		for _, thr := range []int{1, 2} {
 			for i := 0; i < procs+thr; i++ {
+				if thr == 2 && i != procs+1 {
+					continue // earlier faults do not depend on the threshold
+				}
+				pat := "first"
+				if i == procs+1 {
+					pat = "stagger"
+					if procs == 1 {
+						pat = "replacement"
+					}
+				}
 				for _, term := range []string{"exit", "mixed"} {
 					i := i
-					pat := "crashloop"
-					if procs >= 2 {
-						pat = "three"
-					}
 					add(c39mk(fmt.Sprintf("spawn-failure-at-%d", i), procs, thr, time.Duration(i%2)*time.Second, pat, term, func(sc *c39sc) { sc.children[i].StartErr = c39errStart }))
 					add(c39mk(fmt.Sprintf("spawn-hook-error-at-%d", i), procs, thr, time.Duration((i+1)%2)*time.Second, pat, term, func(sc *c39sc) { sc.hookFailAt = i }))
 				}
 			}
 		}
 		// OnMasterReady fails
-		for _, term := range []string{"exit", "ignore", "slow", "late"} {
-			for _, pat := range []string{"none", "first"} {
-				add(c39mk("ready-hook-error", procs, 1, 0, pat, term, func(sc *c39sc) { sc.readyFails = true }))
-			}
+		for _, term := range []string{"exit", "ignore", "mixed", "slow-mixed"} {
+			add(c39mk("ready-hook-error", procs, 1, 0, "none", term, func(sc *c39sc) { sc.readyFails = true }))
 		}
+		add(c39mk("ready-hook-error", procs, 1, 0, "first", "mixed", func(sc *c39sc) { sc.readyFails = true }))
 	}
 	// D: CommandProducer misbehaviour (error, nil command, unstarted command) at the second initial spawn / the first recovery
 	for _, kind := range []string{"error", "nil", "unstarted"} {
@@ -590,6 +632,12 @@ func c39scenarios(r *vrt.R) []*c39sc {
 		}
 	}
 	add(c39mk("producer-ok", 2, 1, 0, "stagger", "mixed", func(sc *c39sc) { sc.producer = true }))
+	add(c39mk("reuseport", 2, 1, time.Second, "stagger", "ignore", func(sc *c39sc) { sc.reuseport = true }))
+	// OnChildSpawn panics (initial fleet / first recovery): the panic leaves prefork through its deferred teardown
+	for _, at := range []int{1, 2} {
+		at := at
+		add(c39mk(fmt.Sprintf("spawn-hook-panic-at-%d", at), 2, 1, 0, "first", "mixed", func(sc *c39sc) { sc.hookPanicAt = at }))
+	}
 	// E: listener set-up fails (no child may ever be started)
 	add(c39mk("listen-error", 2, 1, 0, "none", "exit", func(sc *c39sc) { sc.listenErr = true }))
 	add(c39mk("listener-file-error", 2, 1, 0, "none", "exit", func(sc *c39sc) { sc.fileErr = true }))
@@ -603,22 +651,101 @@ func c39scenarios(r *vrt.R) []*c39sc {
 		add(c39mk("", 2, 0, ri, "exit-in-grace", "ignore", nil))
 	}
 	// G: the kernel may recycle the pid of a reaped child (environment deviation)
-	for _, thr := range []int{1, 2} {
-		for _, ri := range ris {
-			for _, pat := range []string{"together", "stagger", "three"} {
-				add(c39mk("pid-reuse", 2, thr, ri, pat, "ignore", func(sc *c39sc) { sc.pidReuse = true }))
-			}
+	for _, ri := range ris {
+		for _, pat := range []string{"together", "stagger"} {
+			add(c39mk("pid-reuse", 2, 1, ri, pat, "ignore", func(sc *c39sc) { sc.pidReuse = true }))
 		}
 	}
+	add(c39mk("pid-reuse", 2, 2, 0, "together", "ignore", func(sc *c39sc) { sc.pidReuse = true }))
+	add(c39mk("pid-reuse", 2, 2, time.Second, "three", "ignore", func(sc *c39sc) { sc.pidReuse = true }))
 	if r.Thorough() {
-		// one more processor
+		// one more processor (one deviation less)
 		for _, thr := range []int{0, 1} {
 			for _, pat := range []string{"together", "stagger"} {
 				add(c39mk("", 3, thr, time.Second, pat, "mixed", func(sc *c39sc) { sc.boundDelta = -1 }))
 			}
 		}
 	}
+	if r.Thorough() {
+		// single-child fleets are small enough for one more deviation
+		for _, sc := range out {
+			if sc.procs == 1 {
+				sc.boundDelta = 1
+			}
+		}
+	}
 	return out
+}
+
+// ---- child side: watchMaster (the other half of "no orphans": a child notices that its master is gone) -------------
+
+type c39watchObs struct {
+	calls        int
+	calledAt     time.Duration
+	blockedUntil time.Duration
+	diedAt       time.Duration
+	ended        bool
+	done         bool
+}
+
+const c39masterPid = 4242
+
+func c39watchBody(dieAt time.Duration, sleeps int) func() {
+	return func() {
+		seam.Reset(seam.Config{Procs: 1, Ppid: c39masterPid})
+		o := &c39watchObs{diedAt: -1}
+		mcrt.SetUserData(o)
+		p := &Prefork{Logger: &c39logger{&c39obs{}}}
+		p.OnMasterDeath = func() {
+			o.calls++
+			o.calledAt, o.blockedUntil = c39now(), time.Duration(mcrt.BlockedUntil())
+		}
+		mcrt.GoNamed("watcher", func() {
+			if dieAt <= 0 {
+				mcrt.Daemon() // polls for ever, by design
+			}
+			p.watchMaster(seam.Getppid())
+			o.ended = true
+		})
+		if dieAt > 0 {
+			mtime.Sleep(dieAt)
+			seam.SetPpid(1) // the master died, the child was re-parented
+			o.diedAt = c39now()
+		}
+		for i := 0; i < sleeps; i++ {
+			mtime.Sleep(2 * time.Second)
+		}
+		o.done = true
+	}
+}
+
+func c39watchCheck(dieAt time.Duration) func(x *mcrt.Exec) (string, string, string) {
+	return func(x *mcrt.Exec) (string, string, string) {
+		o, _ := x.UserData.(*c39watchObs)
+		if o == nil || !o.done || x.Out.Panic != "" || x.Out.Horizon || x.Out.Fatal != "" || x.Out.Deadlock {
+			return "", "", ""
+		}
+		cls := fmt.Sprintf("master-died=%v OnMasterDeath-calls=%d", dieAt > 0, o.calls)
+		if dieAt <= 0 {
+			if o.calls != 0 || o.ended {
+				return cls, "prefork-child-reports-master-death-while-master-alive", fmt.Sprintf("OnMasterDeath called %d times (watcher ended: %v) although the parent pid never changed", o.calls, o.ended)
+			}
+			return cls, "", ""
+		}
+		if o.calls > 0 && o.calledAt < o.diedAt {
+			return cls, "prefork-child-reports-master-death-while-master-alive", fmt.Sprintf("OnMasterDeath called at %v, the master died at %v", o.calledAt, o.diedAt)
+		}
+		if o.calls != 1 || !o.ended {
+			return cls, fmt.Sprintf("prefork-child-misses-master-death[calls=%d]", o.calls), fmt.Sprintf("the master died at %v; %v later OnMasterDeath has been called %d times, watcher ended: %v", o.diedAt, c39now(), o.calls, o.ended)
+		}
+		if o.blockedUntil > o.diedAt+masterPollInterval {
+			return cls, "prefork-child-notices-master-death-late", fmt.Sprintf("the master died at %v, the watcher was still waiting at %v (poll interval %v)", o.diedAt, o.blockedUntil, masterPollInterval)
+		}
+		if x.Out.LiveAtEnd > 0 {
+			return cls, "prefork-watcher-thread-leaks", fmt.Sprintf("%d thread(s) left after OnMasterDeath", x.Out.LiveAtEnd)
+		}
+		return cls, "", ""
+	}
 }
 
 func TestVerif_C39(t *testing.T) {
@@ -635,7 +762,7 @@ func TestVerif_C39(t *testing.T) {
 	r.Assume("mcrt shim semantics (litmus-tested)", "mcgen rewriting incl. the seam substitution exec.Cmd/net.ListenTCP/net.TCPListener/runtime.GOMAXPROCS/os.Getppid -> engine/seamprefork",
 		"fake children: SIGKILL and an obeyed SIGTERM take effect at once; Signal/Kill/Start are atomic steps of the calling thread; a reaped pid answers os.ErrProcessDone",
 		"hooks are instrumented stubs (OnChildSpawn yields once)", "context.WithCancel is the real one (cancel is not a scheduling point)")
-	bound := vrt.Pick(r, 2, 3)
+	bound := 2 // thorough: +1 for GOMAXPROCS=1, the crash-loop scripts for GOMAXPROCS=2 and a GOMAXPROCS=3 fleet are added
 	var scs []mcx.Scenario
 	only := os.Getenv("VERIF_C39_ONLY") // development aid: restrict to scenarios whose name contains the value
 	for _, sc := range c39scenarios(r) {
@@ -647,6 +774,13 @@ func TestVerif_C39(t *testing.T) {
 			fmt.Sscan(v, &b)
 		}
 		scs = append(scs, mcx.Scenario{Name: sc.name, Cfg: mcrt.Config{Bound: b, Horizon: 3000, TimerFirst: true}, Body: c39body(sc, b+1), Check: c39check(sc)})
+	}
+	for _, die := range []time.Duration{0, 700 * time.Millisecond, time.Second} {
+		name := fmt.Sprintf("child/watch-master/master-dies-at-%v", die)
+		if only != "" && !strings.Contains(name, only) {
+			continue
+		}
+		scs = append(scs, mcx.Scenario{Name: name, Cfg: mcrt.Config{Bound: bound, Horizon: 3000, TimerFirst: true}, Body: c39watchBody(die, bound+1), Check: c39watchCheck(die)})
 	}
 	// balance the static sharding (scenario i goes to worker i mod n): interleave expensive and cheap ones
 	sort.SliceStable(scs, func(i, j int) bool { return c39weight(scs[i].Name) > c39weight(scs[j].Name) })
